@@ -187,20 +187,18 @@ def map_(
         a_task = compose(*tasks)
 
     def then(a_task: Task) -> Promise:
+        def map_values(values: Sequence[Any]) -> Promise:
+            exprs = [a_task(value) for value in values]
+            # Record dataflow: the result of map_ is produced by the mapped task calls.
+            sexpr._upstreams = [exprs]
+            return scheduler.evaluate(exprs, parent_job=parent_job)
+
         if isinstance(values, (list, tuple)):
             # Ready to perform parallel map.
-            return scheduler.evaluate(
-                [a_task(value) for value in values],
-                parent_job=parent_job,
-            )
+            return map_values(values)
         else:
             # Need to evaluate list first.
-            return scheduler.evaluate(values, parent_job=parent_job).then(
-                lambda values: scheduler.evaluate(
-                    [a_task(value) for value in values],
-                    parent_job=parent_job,
-                )
-            )
+            return scheduler.evaluate(values, parent_job=parent_job).then(map_values)
 
     # Evaluate task first, in case it's an expression.
     return scheduler.evaluate(a_task, parent_job=parent_job).then(then)
